@@ -228,11 +228,6 @@ def firstDiff (a b : Array Int) : Nat :=
   | some i => i + 1
   | none => 0
 
-def setInputs (f : FModule) (a : Array Int) (ins : List Nat) (vals : List Int) (signedVals : Bool) : Array Int :=
-  (ins.zip vals).foldl (fun acc (iv : Nat × Int) =>
-    let d := f.sigs.getD iv.1 default
-    acc.setIfInBounds iv.1 (if signedVals then truncS d.w d.s iv.2 else tn d.w iv.2)) a
-
 def callSim (secs : List (List String)) : Option String := do
   match secs with
   | [fuel] :: sigsS :: combS :: syncS :: vitemsS :: declsS :: iosS :: insS :: obsS :: cycles =>
@@ -267,8 +262,9 @@ def callSim (secs : List (List String)) : Option String := do
         | k :: r =>
           let (clks, r) ← takeNats (← k.toNat?) r
           let vals ← parseInts r
-          let aF := settleF f fuel (setInputs f aF ins vals true)
-          let aV := settleV f.sigs vitems fuel (setInputs f aV ins vals false)
+          let cyc : Cycle := { ins := ins.zip vals, clks := clks }
+          let aF := settledF f fuel aF cyc
+          let aV := settledV f.sigs vitems fuel aV cyc
           let bF := bitsOfF f aF
           let mism := firstDiff bF aV
           let fits := fitsModule f aF
@@ -279,16 +275,30 @@ def callSim (secs : List (List String)) : Option String := do
           let line := s!"{mism} {if fits then 1 else 0} {obsVals}{extra}"
           -- resynchronise the Verilog side after a divergence, then clock edge on both
           let aV := if mism != 0 then bF else aV
-          let aF' := commitF aF (syncPassF f aF clks)
-          let aV' := commitV f.sigs aV (syncPassV vitems aV clks)
+          let aF' := edgeF f aF cyc
+          let aV' := edgeV f.sigs vitems aV cyc
           go aF' aV' rest (line :: acc)
         | [] => none
     let lines ← go aF0 aV0 cycles []
     some (" ; ".intercalate (s!"{peq} {deq} {nsites} ! {ssitesStr}" :: lines))
   | _ => none
 
+/-- call low cat|rep <start> <length> ; <FHDL expr>  ->  "<start'> <expr'>" (model of `_lower_slice_cat` /
+    `_lower_slice_replicate`). -/
+def callLow (secs : List (List String)) : Option String := do
+  match secs with
+  | [kind, st, len] :: fe :: [] =>
+    let (e, r) ← parseFE fe
+    if !r.isEmpty then none
+    let st ← st.toNat?
+    let len ← len.toNat?
+    let res := if kind == "cat" then lowerCat e st len else lowerRep e st len
+    some s!"{res.2} {showE res.1}"
+  | _ => none
+
 def call (args : List String) : Option String :=
   match args with
+  | "low" :: rest => callLow (splitSemi rest)
   | "x" :: rest => callX (splitSemi rest)
   | "sim" :: rest => callSim (splitSemi rest)
   | _ => none
